@@ -168,6 +168,8 @@ def run_group(pid, groups, tier, only=None, known_ids=()):
                 continue
             if h["tier"] == "thorough" and tier != "thorough":
                 continue
+            if h["kind"] == "witness" and not (only and h["harness"] in only):
+                continue
             if only and h["harness"] not in only:
                 continue
             h["crate"] = g.get("crate", "elvis-core")
